@@ -402,7 +402,10 @@ func (fr *frame) modular(key string, c *Contract, callee *ssa.Function, sig *typ
 	for _, cl := range c.Ensures {
 		t, err := env.EvalBool(cl.E)
 		if err != nil {
-			ft.unsupported("ensures of %s: %v", key, err)
+			// a postcondition of the callee that cannot be interpreted at this call (e.g. it names a result the callee no
+			// longer has) is not assumed: the caller is checked against what is left of the contract, which is sound
+			// (fewer assumptions) and keeps the caller's own obligations decided instead of silently undecided
+			ft.dropped = append(ft.dropped, fmt.Sprintf("ensures of %s not assumed at a call: %v", key, err))
 			continue
 		}
 		ft.fact("(=> " + reach + " " + t + ")")
